@@ -333,7 +333,9 @@ class EffectiveLindbladian(Gate):
         k_mat = self.calc_k_mat()
 
         # project k_mat
-        eigenvals, eigenvecs = np.linalg.eig(k_mat)
+        # k_mat is Hermitian: eigh returns an orthonormal eigenbasis also for repeated eigenvalues
+        # (np.linalg.eig does not, and V diag V^dagger is then not the projection)
+        eigenvals, eigenvecs = np.linalg.eigh(k_mat)
         for index in range(len(eigenvals)):
             if eigenvals[index] < 0:
                 eigenvals[index] = 0
